@@ -64,9 +64,24 @@ fn main() {
     if id != "miri-leg" {
         ctx.info("threads", serde_json::json!(rayon::current_num_threads()));
     }
-    if !checks::run(id, &ctx) {
+    if !checks::ALL.contains(&id) && id != "miri-leg" {
         eprintln!("unknown check {id}");
         std::process::exit(2);
+    }
+    // A panic that escapes the per-call guards: in subject code it is a violation (no decoder, encoder,
+    // constructor or accessor may panic on the inputs the checks feed it); in harness code a machinery error.
+    if let Err(msg) = ev::guard(|| checks::run(id, &ctx)) {
+        let loc = ev::LAST_PANIC_ANYWHERE.lock().map(|g| g.clone()).unwrap_or_default();
+        if loc.starts_with("/repo/") || loc.contains("/repo/src/") {
+            ctx.violation(
+                format!("{id}:panic-in-subject:{}", loc.rsplit('/').next().unwrap_or("")),
+                format!("the subject panicked outside a guarded call while {id} was running: {msg} @ {loc} (the run stopped there; coverage is partial)"),
+                serde_json::json!({"kind": "panic", "location": loc, "message": msg}),
+            );
+            ctx.capped("the run was cut short by a panic in the subject");
+        } else {
+            ctx.info("machinery_error", serde_json::json!(format!("harness panic: {msg} @ {loc}")));
+        }
     }
     let j = ctx.to_json(t0.elapsed().as_secs_f64());
     let machinery = ctx.info.lock().unwrap().get("machinery_error").cloned();
@@ -76,7 +91,7 @@ fn main() {
         None => println!("{text}"),
     }
     if let Some(m) = machinery {
+        // reported through the part file; the driver decides (violations take precedence over a machinery error)
         eprintln!("MACHINERY: {m}");
-        std::process::exit(2);
     }
 }
